@@ -13,6 +13,7 @@ type Compiled struct {
 	NumSGPR   int
 	LDSBytes  int
 	KernargSz int
+	PackedIDs bool
 	// Listing holds one line per emitted instruction group (for replay messages).
 	Listing []string
 }
@@ -206,6 +207,14 @@ func (p *Program) Compile() (*Compiled, error) {
 	}
 	if usesLDS {
 		a.SOP1(kasm.OpSMovB32, kasm.M0, kasm.Imm(-1))
+	}
+	if p.PackedIDs {
+		// v0 = x | y<<10 | z<<20 (code object v5): unpack into v0, v1, v2
+		a.VOP2(kasm.OpVLshrrevB32, kasm.V(1), imm(10), kasm.V(0))
+		a.VOP2(kasm.OpVAndB32, kasm.V(1), kasm.Lit(0x3ff), kasm.V(1))
+		a.VOP2(kasm.OpVLshrrevB32, kasm.V(2), imm(20), kasm.V(0))
+		a.VOP2(kasm.OpVAndB32, kasm.V(2), kasm.Lit(0x3ff), kasm.V(2))
+		a.VOP2(kasm.OpVAndB32, kasm.V(0), kasm.Lit(0x3ff), kasm.V(0))
 	}
 	// global ids
 	for d := 0; d < 3; d++ {
@@ -409,6 +418,7 @@ func (p *Program) Compile() (*Compiled, error) {
 		NumSGPR:   ns,
 		LDSBytes:  c.nLDS * int(wgItems) * 4,
 		KernargSz: 32,
+		PackedIDs: p.PackedIDs,
 		Listing:   c.list,
 	}, nil
 }
